@@ -23,6 +23,8 @@ def base_specs():
     specs += [("props.ibantasks", "IbanTask", (cc, "construct")) for cc in ("DE", "NO", "GB", "IT", "None")]
     specs += [("props.bictasks", "BicTask", ("construct",))]
     specs += [("props.c08", "GenerateTask", (cc,)) for cc in ("DE", "ES", "NL")]
+    from props import lookuptasks
+    specs += lookuptasks.specs()
     return specs
 
 
